@@ -326,11 +326,17 @@ func runCase(c *CaseData, out *Out) {
 	})
 	opts := []risor.Option{risor.WithConcurrency(), risor.WithGlobal("verif_mark", mark)}
 	ctx := base
+	if c.Ctx == "cancel-defer" {
+		// the deadline passes while verif_f spins; its deferred builtin call runs during the unwind
+		dctx, dcancel := context.WithTimeout(base, 60*time.Millisecond)
+		defer dcancel()
+		ctx = dctx
+	}
 	switch c.Route {
 	case "withos":
 		opts = append(opts, risor.WithOS(rec))
 	case "ctx":
-		ctx = ros.WithOS(base, rec)
+		ctx = ros.WithOS(ctx, rec)
 	default:
 		out.Harness = "unknown route " + c.Route
 		return
